@@ -158,7 +158,7 @@ func (c01) Run(c *fw.Ctx) {
 	nontrivial := false
 	afterReopen := false
 	for step := 0; step < nops && !c.Violated(); step++ {
-		op := genOp(r, l, s.now, histOpts{hostileValues: true})
+		op := genOp(r, l, s.now, histOpts{hostileValues: true, futureBatch: c.Index%5 == 1})
 		if farJump && step == 3 {
 			d := int64(1)<<31 + int64(r.Intn(1<<20))
 			if s.now+d+2*l.MaxStep()+1 < int64(1)<<32 {
